@@ -188,6 +188,19 @@ def run(res):
             for j in range(2 + rng.below(4)):
                 st = rng.choice(["print(pq_%d())", "cq_%d = cq_%d * 2", "limit += 1", "print(cq_%d)", "cq_%d = pq_%d()"]).replace("%d", str(i))
                 parts.insert(at + 1 + rng.below(len(parts) - at), st)
+        if i % 3 != 2:
+            # a function literal nested inside a function (a closure factory) that reads and writes a global: the inner code is
+            # loaded when first called and must keep following the globals of the growing main code in every later piece
+            parts.insert(1 + rng.below(len(parts)), "nq_%d := %d" % (i, rng.below(5)))
+            at = max(j for j, ptxt in enumerate(parts) if ptxt.startswith("nq_")) + 1
+            inner = rng.choice(["nq_%d = nq_%d + 1; return nq_%d", "return nq_%d * 10", "nq_%d += limit; return [nq_%d, limit]"]).replace("%d", str(i))
+            parts.insert(at, "func mkq_%d() { k := 1; return func() { %s } }" % (i, inner))
+            parts.insert(at + 1, "hn_%d := mkq_%d()" % (i, i))
+            for j in range(2 + rng.below(4)):
+                st = rng.choice(["print(hn_%d())", "nq_%d = nq_%d * 2", "print(nq_%d)", "print(mkq_%d()())", "nq_%d = hn_%d()[0] if false else nq_%d + 3"])
+                if " if " in st:
+                    st = "nq_%d = nq_%d + 3"
+                parts.insert(at + 2 + rng.below(len(parts) - at - 1), st.replace("%d", str(i)))
         if i % 2 == 0:
             # statements over the host-provided globals (a number, a list, a builtin), reassigned and read across pieces
             for j in range(1 + rng.below(4)):
@@ -203,6 +216,13 @@ def run(res):
             if which == 0:
                 ins = rng.choice(PARSE_REJECTS)
                 cases.append(("parse-reject", pieces[:k] + [ins] + pieces[k:], pieces, k))
+            elif which == 1 and rng.chance(1, 2):
+                # an assignment to a constant whose right-hand side has an effect: rejected as a whole, the effect never happens
+                cdecl = "const kq_%d = %d" % (i, rng.below(9))
+                ins = rng.choice(["kq_%d = log.append(%d)", "kq_%d += len(log.append(%d))", "kq_%d = t(%d, 1)", "kq_%d *= t(%d, 2)",
+                                  "kq_%d = func() { log.append(%d); return 1 }()"]) % (i, 70 + rng.below(9))
+                ref = pieces[:k] + [cdecl] + pieces[k:]
+                cases.append(("compile-reject-leaf", pieces[:k] + [cdecl, ins] + pieces[k:], ref, k + 1))
             elif which == 1:
                 ins = rng.choice(LEAF_COMPILE_REJECTS)
                 cases.append(("compile-reject-leaf", pieces[:k] + [ins] + pieces[k:], pieces, k))
